@@ -177,6 +177,9 @@ func runPlenctag(flags [3]bool, src string) (out []byte, status string) {
 	err := cmd.Run()
 	if err != nil {
 		if ee, ok := err.(*exec.ExitError); ok && ee.ExitCode() == 1 {
+			if strings.TrimSpace(se.String()) == "" {
+				return nil, "crash exit status 1 without any message"
+			}
 			return nil, "err"
 		}
 		return nil, "crash " + strings.SplitN(se.String(), "\n", 2)[0]
@@ -380,7 +383,7 @@ func oracleTagtool(op *Sexp, res string) []string { return lastTagtoolOracle }
 var ttTags = []string{`json:"a"`, `json:"-"`, `sql:"-"`, `json:"b,omitempty" sql:"c"`, `plenc:"1"`, `plenc:"3"`, `plenc:"7,flat"`, `plenc:"-"`,
 	`json:"x" plenc:"2"`, `plenc:"12" json:"-"`, ``, ` `, `yaml:"q"`, `json:"a,omitempty"`, `db:"col" json:"-" sql:"-"`, `plenc:"0"`,
 	`json:"a"`, `json:"-"`, `sql:"-"`, `plenc:"5"`, `plenc:"2,intern" json:"n"`, `xml:"e" json:"e"`, `plenc:"40"`, `json:"k"  sql:"k"`,
-	`sql:"password_hash" json:"-"`, `json:"-" sql:"col"`, `sql:"-" json:"shown"`, `json:"-,"`, `sql:"-,omitempty"`, `json:"a,"`}
+	`sql:"password_hash" json:"-"`, `plenc:"536870911"`, `plenc:"536870910"`, `plenc:"536870911" json:"top"`, `json:"-" sql:"col"`, `sql:"-" json:"shown"`, `json:"-,"`, `sql:"-,omitempty"`, `json:"a,"`}
 
 // rare: malformed tags (the tool must report an error, not crash)
 var ttBadTags = []string{`plenc:"x"`, `json:"unterminated`, `bad tag`, `plenc:`, `:"v"`, `plenc:"1" json`}
